@@ -14,6 +14,7 @@ import (
 	"io"
 	mrand "math/rand"
 	"os"
+	"sync"
 	"testing"
 	"testing/cryptotest"
 	"time"
@@ -68,6 +69,7 @@ type Plan44 struct {
 	YieldEach  [2]int    `json:"yield_each"`
 	FragTape   []uint16  `json:"frag_tape"`
 	Window     [2]int    `json:"window"`
+	Hold       [2]bool   `json:"hold"` // reader of endpoint A/B keeps the slice returned by Read (valid until the next Read) across the endpoint's next Write before looking at it
 	Faults     []Fault44 `json:"faults"`
 	Tape       []uint16  `json:"tape"`
 }
@@ -104,13 +106,15 @@ func genMsgs(r *simcore.Rand, snappy bool, allowHuge bool) []Msg44 {
 		case 3:
 			m.Code = []uint64{0, 127, 128, 255, 256, 1<<32 - 1, 1 << 32, 1<<64 - 1}[r.Intn(8)]
 		}
-		switch r.Pick(12, 5, 2) {
+		switch r.Pick(12, 5, 2, 4) {
 		case 0:
 			m.Size = sizes44[r.Intn(len(sizes44))]
 		case 1:
 			m.Size = r.Intn(3000)
 		case 2:
 			m.Size = r.Range(3000, 70000)
+		case 3:
+			m.Size = r.Range(1025, 2048) // just above typical initial buffer sizes
 		}
 		out = append(out, m)
 	}
@@ -148,6 +152,7 @@ func Gen44(r *simcore.Rand, tier string) any {
 		if r.Bool(0.3) {
 			p.Window[d] = []int{1, 64, 600, 5000}[r.Intn(4)]
 		}
+		p.Hold[d] = r.Bool(0.5)
 	}
 	p.FragTape = r.Tape(400)
 	nf := r.Pick(3, 6, 1)
@@ -243,6 +248,11 @@ func Shrink44(pl any) []any {
 		}
 	}
 	for d := 0; d < 2; d++ {
+		if p.Hold[d] {
+			q := clone44(p)
+			q.Hold[d] = false
+			out = append(out, q)
+		}
 		if p.FragMode[d] != 0 || p.YieldEach[d] != 0 || p.Window[d] != 0 {
 			q := clone44(p)
 			q.FragMode[d], q.YieldEach[d], q.Window[d] = 0, 0, 0
@@ -354,6 +364,25 @@ type endpoint44 struct {
 	readStart []time.Time
 	readEnd   []time.Time
 	viol      *simcore.Violation
+
+	// writer progress, for readers that hold a payload across the endpoint's next Write
+	mu         sync.Mutex
+	hold       bool
+	writesDone int
+	writerDone bool
+	wrote      chan struct{}
+	held       int
+}
+
+func (e *endpoint44) noteWrite(finished bool) {
+	e.mu.Lock()
+	e.writesDone++
+	if finished {
+		e.writerDone = true
+	}
+	close(e.wrote)
+	e.wrote = make(chan struct{})
+	e.mu.Unlock()
 }
 
 func unhex(s string) []byte {
@@ -401,8 +430,8 @@ func Run44(t *testing.T, pl any) *simcore.Result {
 				ba.faults = append(ba.faults, wf)
 			}
 		}
-		A = &endpoint44{name: "A", conn: ca, key: keyA}
-		B = &endpoint44{name: "B", conn: cb, key: keyB}
+		A = &endpoint44{name: "A", conn: ca, key: keyA, hold: p.Hold[0], wrote: make(chan struct{})}
+		B = &endpoint44{name: "B", conn: cb, key: keyB, hold: p.Hold[1], wrote: make(chan struct{})}
 		A.rc = rlpx.NewConn(ca, &keyB.PublicKey)
 		B.rc = rlpx.NewConn(cb, nil)
 
@@ -469,6 +498,9 @@ func Run44(t *testing.T, pl any) *simcore.Result {
 		}
 		log = log.U64(uint64(w.wireHash)).U64(uint64(w.origN)).U64(uint64(w.rpos))
 	}
+	if A.held+B.held > 0 {
+		res.Probes["payload-held-across-write"] += A.held + B.held
+	}
 	v := oracle44(p, A, B, ab, ba, res)
 	for _, e := range []*endpoint44{A, B} {
 		log = log.String(fmt.Sprint(e.hsDone, e.hsErr, e.recvN, e.recvErr, len(e.sent)))
@@ -487,7 +519,11 @@ func Run44(t *testing.T, pl any) *simcore.Result {
 
 func writer44(sched *simsched.Sched, e *endpoint44, msgs []Msg44, snappy bool) {
 	defer e.conn.CloseWrite()
-	for _, m := range msgs {
+	defer e.noteWrite(true)
+	for i, m := range msgs {
+		if i > 0 {
+			e.noteWrite(false)
+		}
 		data := payload44(m)
 		e.rc.SetWriteDeadline(time.Now().Add(frameWriteTimeout))
 		e.conn.out.mu.Lock()
@@ -536,6 +572,24 @@ func reader44(sched *simsched.Sched, e, peer *endpoint44) {
 		if err != nil {
 			e.recvErr = err
 			return
+		}
+		if e.hold {
+			// The slice returned by Read is valid until the next Read: keep it, uncopied,
+			// until this endpoint's writer has completed one more Write (or is done; or,
+			// if the writer is itself waiting for somebody, for 50 ms of virtual time).
+			e.mu.Lock()
+			done, ch := e.writerDone, e.wrote
+			e.mu.Unlock()
+			if !done {
+				tm := time.NewTimer(50 * time.Millisecond)
+				select {
+				case <-ch:
+					e.held++
+				case <-tm.C:
+				}
+				tm.Stop()
+				sched.Gate(e.name + ".r:held")
+			}
 		}
 		// The peer's writer runs strictly before (it is the only way bytes get here), so
 		// its record of message recvN exists unless something was delivered that was
